@@ -234,3 +234,9 @@ def series_ctor(data=None, index=None, dtype=None):
             raise Unsupported("pd.Series(%r, index=frame.index, dtype=%r)" % (data, dtype))
         return FlagSeries(index.frame)
     return pdmodel.Series(data, index, dtype)
+
+
+from .ctx import guard_methods as _gm  # noqa: E402
+
+for _cls, _lab in ((ColSeries, "pandas.Series"), (Frame, "pandas.DataFrame"), (FlagSeries, "pandas.Series")):
+    _gm(_cls, _lab)
